@@ -9,7 +9,7 @@ open VlsModel VlsModel.Secrets
 def cpPart (c : Chan) : Nat × Nat × Option Nat × Option Nat × Option Nat × Option Nat × Option (Store Bytes) :=
   (c.cpCommit, c.cpRevoke, c.curPt, c.prevPt, c.curInfo, c.prevInfo, c.secrets)
 
-theorem cpPart_validate (c : Chan) (n info : Nat) (sv pk : Bool) :
+theorem cpPart_validate (c : Chan) (n info : Nat) (sv : SigFact) (pk : Bool) :
     cpPart (validate c n info sv pk).c = cpPart c := by
   unfold validate fail cpPart
   dsimp only
